@@ -73,13 +73,14 @@ def run(rng, tier, res=None, want=("knnpred", "select")):
         n = rng.choice([3, 4, 5, 6, 8, 10, 12 if tier == "quick" else 16])
         d = rng.choice([1, 2, 3])
         kind = rng.choice(["lattice", "lattice", "dups", "blobs", "normal", "sparse", "tiny"])
-        metric = rng.choice(["squared_euclidean", "euclidean", "manhattan", "log_squared_euclidean", "pearson", "neyman"])
+        metric = rng.choice(["squared_euclidean", "euclidean", "manhattan", "log_squared_euclidean", "pearson", "neyman",
+                             "kullback_leibler", "k_divergence"])       # the last two can be NEGATIVE on positive, non-normalised features
         if kind == "sparse":
             metric = rng.choice(["canberra", "bray_curtis", "chi_squared", "clark"])   # zero-guarded ratio metrics on data with zeros
             d = max(d, 3)
         if kind == "tiny":
             metric = rng.choice(["squared_euclidean", "euclidean"])
-        asym = metric in ("pearson", "neyman")     # d(x, t) != d(t, x): the orientation of every evaluation matters
+        asym = metric in ("pearson", "neyman", "kullback_leibler", "k_divergence")     # d(x, t) != d(t, x): the orientation of every evaluation matters
         fn = dist.DISTANCES[metric]
         X = gen_data(rng, n, d, kind)
         if asym:
@@ -156,7 +157,7 @@ def run(rng, tier, res=None, want=("knnpred", "select")):
                 state_before_final = {}
 
                 inject = rng.random() < 0.5
-                inj = [rng.choice([0.0, 0.5, 1.0, 1.0, 1.5, 2.0, 6.0]) for _ in range(max_k + 2)]
+                inj = [rng.choice([0.0, 0.5, 1.0, 1.0, 1.5, 2.0, 6.0, 1e-9, 3e-11, 1e-300]) for _ in range(max_k + 2)]   # tiny is not zero
                 if inject and rng.random() < 0.5:
                     inj = [v if v != 0.0 else 1.0 for v in inj]     # no zero: every candidate is evaluated
 
@@ -241,7 +242,8 @@ def run(rng, tier, res=None, want=("knnpred", "select")):
             res.hit("skipped_nan_density")   # duplicates at rank k make the unsupervised density bound 0 (0/0): outside every property
             continue
         # ---------------- whole-pipeline model of UnsupervisedOPF.fit (criterion not injected) ----------------
-        if "select" in want and unsup and not inject:
+        negm = metric in ("kullback_leibler", "k_divergence")     # negative "distances": outside the pipeline models' domain (predict rules still checked)
+        if "select" in want and unsup and not inject and not negm:
             dmb = [fb(fn(X[i], X[j])) for i in range(n) for j in range(n)]
             tp = [v for a_, r_ in exp_tape for v in (fb(a_), fb(r_))]
             from s_knn import lists_str
@@ -294,7 +296,7 @@ def run(rng, tier, res=None, want=("knnpred", "select")):
                     msgs.append(f"kept k={best_k}; smallest k with the highest accuracy in {crit} is {wantk}")
                 viol("C16", msgs, meta)
             # the criterion itself: normalised cut of the final clustering, against the model (Float, bit-exact)
-            if unsup:
+            if unsup and not negm:
                 kk = best_k
                 cutv = orig_cut(kk)
                 adjl = [[int(a) for a in nd_.adjacency] for nd_ in nd]
@@ -336,6 +338,22 @@ def run(rng, tier, res=None, want=("knnpred", "select")):
                     res.hit("candidate_cuts_rederived")
                 except Exception as ex:
                     res.notes.append(f"candidate re-derivation skipped: {type(ex).__name__}")
+            if (not unsup) and not inject and not pre:
+                try:
+                    sg4 = KNNSubgraph(X.copy(), Y.copy())
+                    o4 = KS.KNNSupervisedOPF(max_k=max_k, distance=metric); o4.subgraph = sg4
+                    accs4 = []
+                    for k4 in range(1, max_k + 1):
+                        sg4.best_k = k4
+                        sg4.create_arcs(k4, fn, False, None); sg4.calculate_pdf(k4, fn, False, None); o4._clustering()
+                        accs4.append(float(G.opf_accuracy(Yv.copy(), o4.predict(Xv.copy()))))
+                        sg4.destroy_arcs()
+                    if [fb(a_) for a_ in accs4] != [fb(v_) for v_ in crit]:
+                        viol("C16", f"validation accuracies seen by the search {[float(v_) for v_ in crit]} differ from those of the candidates built one by one "
+                                    f"(arcs, densities, clustering, validation predictions for that k alone) {accs4}", meta)
+                    res.hit("candidate_accuracies_rederived")
+                except Exception as ex:
+                    res.notes.append(f"candidate accuracy re-derivation skipped: {type(ex).__name__}")
             # final model is the one built with best_k (same running density bound)
             sg2 = KNNSubgraph(X.copy(), Y.copy())
             if unsup:
@@ -373,6 +391,14 @@ def run(rng, tier, res=None, want=("knnpred", "select")):
                 res.hit("c04_knn_checked")
         # ---------------- predict (C09, C14) ----------------
         if "knnpred" in want:
+            if rng.random() < 0.3:
+                # the public maxima filter between fit and predict: costs become max(density - h, 0); predict keeps using COSTS
+                try:
+                    sg.eliminate_maxima_height(rng.choice([50.0, 200.0, 0.5, 900.0]))
+                    res.hit("predict_after_eliminate_maxima_height")
+                except Exception:
+                    pass
+
             def predict_(rows):
                 return o.predict(Q[rows], I_val=np.array([Iq[r] for r in rows])) if pre else o.predict(Q[rows])
             mod = US if unsup else KS
